@@ -687,7 +687,7 @@ func init() {
 			var cases []c04Case
 			cases = append(cases, c04LoadCorpus(c)...)
 			cases = append(cases, c04AlignCases(c.Rand, c.Thorough() || c.Search)...) // c04_align.go: deterministic, every run
-			cases = append(cases, genC04(c.Rand, c.Thorough() || c.Search)...) // a broken obligation widens the search
+			cases = append(cases, genC04(c.Rand, c.Thorough() || c.Search)...)        // a broken obligation widens the search
 			for i := 0; i < 3 && i < len(cases); i++ {
 				c.Sample(cases[i])
 			}
